@@ -24,7 +24,8 @@ BUDGET_S = {'quick': 90, 'thorough': 1500}
 
 
 def plan(tier, seed):
-    return [('echo', 3000 if tier == 'quick' else 30000), ('periodic', 3000 if tier == 'quick' else 40000)]
+    return [('echo', 3000 if tier == 'quick' else 30000), ('periodic', 3000 if tier == 'quick' else 40000),
+            ('reconnect-silent', 150 if tier == 'quick' else 3000)]
 
 
 async def _echo(rng, desc):
@@ -139,6 +140,8 @@ def run_case(gen, idx, rng, tier):
     from ..runner import short_hash
     st = {'echoes_checked': 0, 'periods_measured': 0, 'runs_no_false_timeout_clause': 0, 'runs_detection_clause': 0}
     wit = []
+    if gen == 'reconnect-silent':
+        return run_reconnect_silent(idx, rng, tier)
     if gen == 'echo':
         n = rng.choice([1, 2, 3, 8, 20])
         frames = []
@@ -256,3 +259,115 @@ def first_timeout_none(timeouts):
 
 def classify(w):
     return None
+
+
+
+# ---------------------------------------------------------------------------
+# detection on every connection of a reconnecting client: servers that answer for a while (or never) and then fall
+# silent; the application reconnects from the timeout callback; the next server may be silent from the start
+
+
+async def _reconnect_silent(rng, d):
+    from datetime import timedelta
+    from rsocket.rsocket_client import RSocketClient
+    from .. import links
+    from ..apps import World, ScriptedHandler
+    from ..pair import Driver
+    from ..rawpeer import RawPeer
+    world = World()
+    driver = Driver(world, 30.0)
+    loop = asyncio.get_event_loop()
+    P, L = d['P'], d['L']
+    conns = []
+
+    def new_conn():
+        i = len(conns)
+        kc = links.Knobs(rng)
+        kc.connect = tuple(d['connect'])          # a transport whose connect() takes a moment
+        link = links.make_link(d['link'], rng, kc, None)
+        peer = RawPeer(link, 's')
+        c = {'index': i, 'link': link, 'peer': peer, 't0': None, 'answer_until': d['answer_for'][i % len(d['answer_for'])]}
+        conns.append(c)
+
+        async def acker():
+            seen = 0
+            while not (peer.eof or peer.error is not None or link.broken):
+                await asyncio.sleep(P / 4)
+                while seen < len(peer.received):
+                    t, f = peer.received[seen]
+                    seen += 1
+                    if c['t0'] is None:
+                        c['t0'] = t
+                    if f.get('type') == 'KEEPALIVE' and f.get('respond') and t - c['t0'] <= c['answer_until']:
+                        fr = dict(f)
+                        fr['respond'] = False
+                        peer.send(fr)
+        c['acker'] = asyncio.ensure_future(acker())
+        return c
+
+    async def provider():
+        while len(conns) < d['connections']:
+            c = new_conn()
+            yield c['link'].transports['c']
+
+    h = ScriptedHandler(world, 'c', driver)
+    callbacks = []          # (time, index of the connection that was current)
+
+    async def hook(rs):
+        n = len(conns) - 1
+        first = not any(k == n for _, k in callbacks)
+        callbacks.append((loop.time(), n))
+        if first and len(conns) < d['connections']:
+            await rs.reconnect()
+    h.on_keepalive_timeout_hook = hook
+    client = RSocketClient(provider(), handler_factory=lambda: h, keep_alive_period=timedelta(seconds=P),
+                           max_lifetime_period=timedelta(seconds=L))
+    await client.connect()
+    await asyncio.sleep(d['connections'] * (max(d['answer_for']) + 4 * L) + 5.0)
+    out = {'callbacks': callbacks, 'conns': [(c['index'], c['t0'], c['answer_until']) for c in conns]}
+    try:
+        await client.close()
+    except Exception:
+        pass
+    for c in conns:
+        c['acker'].cancel()
+        c['peer'].stop()
+        c['link'].stop()
+    return out
+
+
+def run_reconnect_silent(idx, rng, tier):
+    from .. import vloop
+    from ..runner import short_hash
+    L = rng.choice([0.5, 2.0, 7.0])
+    d = {'link': rng.choice(['bytes', 'messages']), 'P': L / rng.choice([2, 4, 10]), 'L': L, 'connections': rng.choice([2, 3]),
+         'answer_for': [rng.choice([0.0, 0.0, 0.6 * L, 2.5 * L]) for _ in range(3)],
+         'connect': rng.choice([('none',), ('ticks', 2), ('virtual', 0.01), ('virtual', 0.2)])}
+    d['timer_lateness'] = rng.choice([0.0, 2e-5, 1e-3])
+    obs = vloop.run(_reconnect_silent(rng, d), lateness=d['timer_lateness'])
+    wit = []
+    st = {'echoes_checked': 0, 'periods_measured': 0, 'runs_no_false_timeout_clause': 0, 'runs_detection_clause': 0,
+          'silent_connections_judged': 0}
+    for index, t0, answer_until in obs['conns']:
+        if t0 is None:
+            continue
+        st['silent_connections_judged'] += 1
+        mine = [t for t, k in obs['callbacks'] if k == index]
+        silent_from = t0 + answer_until
+        # the last KEEPALIVE arrives no later than silent_from + P; the callback is due once the silence exceeds two
+        # maximum lifetimes (one for the lifetime itself, one for the period of the check)
+        due = silent_from + d['P'] + 2 * d['L'] + 0.05 + 2000 * d['timer_lateness']
+        if not mine or min(mine) > due:
+            wit.append({'clause': 'timeout-callback-missing-on-silent-connection',
+                        'detail': {'case': d, 'connection': index, 'connected_at': t0, 'server_silent_from': silent_from,
+                                   'callback_due_by': due, 'callbacks': obs['callbacks'][:8]}})
+        early = [t for t in mine if t < silent_from + d['L'] - 1e-6]
+        if early:
+            wit.append({'clause': 'timeout-callback-while-server-alive',
+                        'detail': {'case': d, 'connection': index, 'server_silent_from': silent_from, 'callbacks': early[:4]}})
+    if len(obs['conns']) < d['connections']:
+        wit.append({'clause': 'reconnect-from-timeout-callback-did-not-happen',
+                    'detail': {'case': d, 'connections_made': len(obs['conns']), 'callbacks': obs['callbacks'][:8]}})
+    st['runs_detection_clause'] = 1
+    return {'evals': 1, 'nt_keys': [short_hash(d)], 'deciding': st, 'witnesses': wit[:2], 'sample': d,
+            'counts': {'reconnect_silent_runs': 1}}
